@@ -1,0 +1,13 @@
+//go:build verif
+
+package layer4
+
+// VerifHook, when set, is called at the linearization points marked with verifEv.
+// It may block: a blocking hook acts as a scheduler gate for the calling goroutine.
+var VerifHook func(point string, obj any)
+
+func verifEv(point string, obj any) {
+	if h := VerifHook; h != nil {
+		h(point, obj)
+	}
+}
